@@ -44,6 +44,7 @@ const (
 	pValue                   // {{ "v" }}
 	pRender                  // {{ render "p.txt" }}
 	pShebang                 // #! x\n at offset 0
+	pStmt                    // any other statement: an assignment, {% var %}, {% switch %}, {% case %}, {% default %}
 )
 
 type part struct {
@@ -94,7 +95,35 @@ var atoms = []atom{
 	{name: "for-break", open: +1, loop: true}, // parts depend on the position, see partsOf
 	{name: "for-range", parts: []part{{pBlock, "{% for _, x := range []int{1,2} %}"}}, open: +1, loop: true},
 	{name: "end-for-break", open: -1}, // closes for-break only; parts depend on the opener, see partsOf
+	// atoms of the lines.*, switch.* and mdurl.md spaces
+	{name: "assign", parts: []part{{pStmt, "{% _ = 1 %}"}}},
+	{name: "var", parts: []part{{pStmt, "{% var _ = 1 %}"}}},
+	{name: "comment-2-lines", parts: []part{{pComment, "{# x\n y #}"}}},
+	{name: "comment-2-lines-crlf", parts: []part{{pComment, "{# x\r\n y #}"}}},
+	{name: "show-2-lines", parts: []part{{pValue, "{{ 1 +\n 2 }}"}}},
+	{name: "show-2-lines-crlf", parts: []part{{pValue, "{{ 1 +\r\n 2 }}"}}},
+	{name: "stmts-3-lines", parts: []part{{pStmts, "{%%\n _ = 1\n%%}"}}},
+	{name: "stmts-3-lines-crlf", parts: []part{{pStmts, "{%%\r\n _ = 1\r\n%%}"}}},
+	{name: "switch", parts: []part{{pStmt, "{% switch %}"}}, open: +1},
+	{name: "case-true", parts: []part{{pStmt, "{% case true %}"}}},
+	{name: "default", parts: []part{{pStmt, "{% default %}"}}},
+	{name: "url", parts: []part{{pText, "http://a.b"}}},
 }
+
+const (
+	atomA, atomSP, atomLF, atomCRLF = 0, 1, 3, 4
+	atomComment, atomIf, atomEnd    = 12, 14, 15
+	atomShow                        = 19
+	atomAssign                      = 26
+	atomVar                         = 27
+	atomMComment                    = 28 // +1 for the CRLF variant
+	atomMShow                       = 30
+	atomMStmts                      = 32
+	atomSwitch, atomCase, atomDeflt = 34, 35, 36
+	atomURL                         = 37
+)
+
+var altThree = []string{"3"}
 
 const shebangAtom = 21
 
@@ -167,6 +196,13 @@ type elem struct {
 	line int
 	m    mode     // for bytes
 	alts []string // for tokens: the accepted outputs
+	// multi marks the two halves of a token that spans lines: the first
+	// half, on the line where the token starts, carries the output
+	multi bool
+	// dead: not executed (body of a switch clause that is not taken);
+	// limbo: the white space between {% switch %} and its first clause
+	dead, limbo bool
+	url         bool // byte of a bare URL (Markdown)
 }
 
 func isWS(b byte) bool { return b == ' ' || b == '\t' || b == '\n' || b == '\r' }
@@ -185,6 +221,8 @@ type lineInfo struct {
 	newline    bool     // ends with \n
 	shebang    bool
 	eligibleE  bool
+	multi      partKind // kind of a multi-line token touching the line, or 0
+	url        bool     // the line holds a bare URL
 	hasWS      bool
 	spacesOnly bool // everything other than tokens and the final newline is space/tab
 }
@@ -217,7 +255,7 @@ func buildModel(seq []int) *model {
 			case pText, pRaw, pShebang:
 				for i := 0; i < len(p.text); i++ {
 					b := p.text[i]
-					m.elems = append(m.elems, elem{kind: k, b: b, ws: isWS(b), raw: k == pRaw, line: line})
+					m.elems = append(m.elems, elem{kind: k, b: b, ws: isWS(b), raw: k == pRaw, line: line, url: seq[pos] == atomURL})
 					if b == '\n' {
 						line++
 					}
@@ -227,14 +265,26 @@ func buildModel(seq []int) *model {
 				switch k {
 				case pValue:
 					e.alts = altValue
+					if strings.HasPrefix(p.text, "{{ 1 +") {
+						e.alts = altThree
+					}
 				case pRender:
 					e.alts = altRender
 				}
-				m.elems = append(m.elems, e)
+				if n := strings.Count(p.text, "\n"); n > 0 {
+					// a token spanning lines is on its first and on its last line
+					e.multi = true
+					m.elems = append(m.elems, e)
+					line += n
+					m.elems = append(m.elems, elem{tok: true, kind: k, line: line, alts: altNone, multi: true})
+				} else {
+					m.elems = append(m.elems, e)
+				}
 			}
 		}
 	}
 	first[len(seq)] = len(m.elems)
+	m.markSwitch(seq, first)
 	// execution order
 	var unroll func(lo, hi int, inLoop bool)
 	unroll = func(lo, hi int, inLoop bool) {
@@ -272,6 +322,10 @@ func buildModel(seq []int) *model {
 		li := lineInfo{from: i, to: j, spacesOnly: true}
 		for k := i; k < j; k++ {
 			e := &m.elems[k]
+			if e.multi {
+				li.multi = e.kind
+			}
+			li.url = li.url || e.url
 			switch {
 			case e.tok && e.kind == pValue:
 				li.content = true
@@ -293,12 +347,93 @@ func buildModel(seq []int) *model {
 				}
 			}
 		}
-		li.eligibleE = !li.shebang && !li.content && li.ntok == 1 && li.newline && li.spacesOnly &&
+		li.eligibleE = !li.shebang && !li.content && li.ntok == 1 && li.newline && li.spacesOnly && li.multi == 0 &&
 			(li.tokKind == pComment || li.tokKind == pBlock || li.tokKind == pRender)
 		m.lines = append(m.lines, li)
 		i = j
 	}
 	return m
+}
+
+// markSwitch marks the elements that are not executed: the bodies of the
+// clauses of a {% switch %} that are not taken (the first {% case true %} is
+// taken, {% default %} only when the switch has no {% case true %}) are dead,
+// what stands between {% switch %} and its first clause is in limbo.
+func (m *model) markSwitch(seq []int, first []int) {
+	var stack []*swFrame
+	for pos, ai := range seq {
+		switch {
+		case ai == atomSwitch:
+			f := &swFrame{isSwitch: true, limbo: true}
+			depth := 1
+			for q := pos + 1; q < len(seq) && depth > 0; q++ {
+				if depth == 1 && seq[q] == atomCase {
+					f.hasCase = true
+				}
+				depth += atoms[seq[q]].open
+			}
+			// the switch token itself has the status of its surroundings
+			m.setStatus(first[pos], first[pos+1], stackStatus(stack))
+			stack = append(stack, f)
+			continue
+		case atoms[ai].open > 0:
+			m.setStatus(first[pos], first[pos+1], stackStatus(stack))
+			stack = append(stack, &swFrame{})
+			continue
+		case atoms[ai].open < 0:
+			if len(stack) > 0 {
+				stack = stack[:len(stack)-1]
+			}
+		case (ai == atomCase || ai == atomDeflt) && len(stack) > 0 && stack[len(stack)-1].isSwitch:
+			f := stack[len(stack)-1]
+			f.limbo = false
+			live := !f.hasCase
+			if ai == atomCase {
+				live = !f.taken
+			}
+			if live {
+				f.taken = true
+			}
+			f.dead = !live
+			continue // the clause token is silent in any case
+		}
+		m.setStatus(first[pos], first[pos+1], stackStatus(stack))
+	}
+}
+
+type swFrame struct {
+	isSwitch       bool
+	hasCase, taken bool
+	dead, limbo    bool // status of what directly follows inside this frame
+}
+
+// stackStatus returns 1 (dead) if an enclosing frame is not executed, 2
+// (limbo) if the innermost frame is a switch without a clause yet, else 0.
+func stackStatus(stack []*swFrame) int {
+	st := 0
+	for i, f := range stack {
+		if f.dead {
+			return 1
+		}
+		if f.limbo && i == len(stack)-1 {
+			st = 2
+		}
+	}
+	return st
+}
+
+func (m *model) setStatus(from, to, st int) {
+	for k := from; k < to; k++ {
+		switch st {
+		case 1:
+			m.elems[k].dead = true
+			if m.elems[k].tok {
+				m.elems[k].alts = altNone
+			}
+		case 2:
+			m.elems[k].limbo = true
+		}
+	}
 }
 
 // relaxation levels of the labelling
@@ -335,6 +470,10 @@ func (m *model) label(level int, relaxLine int, where int) {
 				continue
 			}
 			switch {
+			case e.dead:
+				e.m = absent // not executed
+			case e.limbo:
+				e.m = opt // between {% switch %} and its first clause: never executed, nothing documented
 			case l.shebang:
 				if e.ws {
 					e.m = opt
@@ -463,6 +602,14 @@ func (m *model) verdict(out []byte) string {
 				if !l.content {
 					kind = "blank"
 				}
+				// the smallest discriminating tuple: a token spanning lines or a
+				// bare URL on the line names the situation by itself
+				switch {
+				case l.multi != 0:
+					return "c|whitespace-removed-on-" + kind + "-line|line-shared-with=" + multiName(l.multi)
+				case l.url:
+					return "c|whitespace-removed-on-" + kind + "-line|line-has=bare-url"
+				}
 				return fmt.Sprintf("c|whitespace-removed-on-%s-line|where=%s|line-ends-at-eof=%v",
 					kind, [...]string{"some", "leading", "trailing"}[where], !l.newline)
 			}
@@ -470,6 +617,11 @@ func (m *model) verdict(out []byte) string {
 	}
 	m.label(lvlAnyWS, -1, 0)
 	if m.match(out) {
+		for _, l := range m.lines {
+			if l.multi != 0 && l.content {
+				return "c|whitespace-removed-on-several-content-lines|some-shared-with=" + multiName(l.multi)
+			}
+		}
 		return "c|whitespace-removed-on-several-content-lines"
 	}
 	m.label(lvlRawWS, -1, 0)
@@ -489,6 +641,8 @@ func kindName(k partKind) string {
 		return "render"
 	case pStmts:
 		return "statements-block"
+	case pStmt:
+		return "statement"
 	}
 	return "other"
 }
@@ -665,6 +819,13 @@ func (m *model) describe() string {
 	return b.String() + "   — x = must appear, (x)? = may disappear, [x]- = must be removed, <…> = token output; the elements between a loop statement and its end occur 2 times"
 }
 
+func multiName(k partKind) string {
+	if k == pValue {
+		return "multi-line-show"
+	}
+	return "multi-line-" + kindName(k)
+}
+
 func kindOrValue(k partKind) string {
 	if k == pValue {
 		return "show v"
@@ -727,6 +888,14 @@ func spaces(tier string) []kit.Space {
 		})
 	}
 	sps = append(sps, urlSpace(tier))
+	swLen, urlLen := 6, 5
+	if tier == "thorough" {
+		swLen, urlLen = 7, 6
+	}
+	for _, ext := range []string{"html", "txt"} {
+		sps = append(sps, linesSpace(ext, 4), switchSpace(ext, swLen), rawSpace(ext))
+	}
+	sps = append(sps, mdurlSpace(urlLen), mdnestSpace(3), bigSpace(tier))
 	return sps
 }
 
